@@ -440,19 +440,13 @@ def findEol(raw, eols=(CRLF, LF, CR )):
     Returns duple (index, size) where index is the offset into raw bytearray of
     the earliest occurring line terminator from eols and size is its length.
     When two terminators start at the same offset the longer one is used.
-    Returns (-1, 0) when no terminator is found yet. This includes the case
-    where both CR and CRLF are in eols and the only terminator found is a
-    CR that is the last byte of raw, since it may be the first half of a CRLF
-    whose LF has not arrived yet.
+    Returns (-1, 0) when no terminator is found.
     """
     index, size = -1, 0
     for eol in eols:
         i = raw.find(eol) if index < 0 else raw.find(eol, 0, index + len(eol))
         if i >= 0 and (index < 0 or i < index or len(eol) > size):
             index, size = i, len(eol)
-
-    if size == 1 and index == len(raw) - 1 and raw[index:] == CR and CRLF in eols:
-        return (-1, 0)  # wait for byte after CR
     return (index, size)
 
 def parseLine(raw, eols=(CRLF, LF, CR ), kind="event line"):
@@ -467,8 +461,23 @@ def parseLine(raw, eols=(CRLF, LF, CR ), kind="event line"):
     Consumes parsed portions of raw bytearray
 
     Raise error if eol not found before MAX_LINE_SIZE
+
+    When both CR and CRLF are in eols a CR ends its line at once, without
+    waiting for the next byte, and an LF that directly follows that CR is then
+    skipped as the second half of a CRLF. So the lines parsed do not depend on
+    where the reads happen to split raw.
     """
+    skip = False  # True means last eol was CR so skip LF if next
+    crlfable = CR in eols and CRLF in eols  # CRLF is CR then skipped LF
+    if crlfable:
+        eols = tuple(eol for eol in eols if eol != CRLF)
+
     while True:
+        if skip and raw:  # next byte available
+            if raw[0:1] == LF:  # second half of CRLF
+                del raw[0]
+            skip = False
+
         index, size = findEol(raw, eols)  # earliest eol, not found index == -1
 
         if index < 0:  # not found
@@ -484,6 +493,7 @@ def parseLine(raw, eols=(CRLF, LF, CR ), kind="event line"):
             raise LineTooLong(kind)
 
         line = raw[:index]
+        skip = crlfable and raw[index:index+1] == CR
         index += size  # strip eol
         del raw[:index] # remove used bytes
         (yield line)
